@@ -396,6 +396,9 @@ class Spectrum(object):
         return sides
 
     def _getSides(self):
+        if self.__psd is None or self.modified is True:
+            # no up-to-date PSD is stored: the next one is computed in the default sides
+            return self._default_sides()
         return self.__sides
     def _setSides(self, sides):
         # check validity of sides
@@ -547,11 +550,7 @@ class Spectrum(object):
         """Return the frequency vector according to :attr:`sides`"""
         # use the attribute sides except if a valid sides argument is provided
         if sides is None:
-            if self.__psd is None or self.modified is True:
-                # no up-to-date PSD is stored: the next one is computed in the default sides
-                sides = self._default_sides()
-            else:
-                sides = self.sides
+            sides = self.sides
         if sides not in self._sides_choices:
             raise errors.SpectrumChoiceError(sides, self._sides_choices)
 
